@@ -76,6 +76,15 @@ def run(ck):
         raise Infra("dot-dot leg: u4 cannot fetch the stream it has the right for (%s)" % dd["own"])
     for h in dd["hits"]:
         ck.violation("C11:dot-dot-path-authorised-as-written:" + h.split(" fetched ")[1].split(" ")[0], h, dd)
+    # WSP sockets opened under a right that is then taken away; a socket path percent-encoded twice
+    out6 = os.path.join(ck.tmp, "c11_stale.json")
+    ck.run_driver("./c11", "^TestWspStaleRights$", {"VERIF_OUT": out6})
+    sr = ck.read_result(out6)
+    if not sr["sane"]:
+        raise Infra("WSP stale-rights leg: u5 cannot play the stream it has the right for")
+    for k in ("stale", "stale_join", "encoded"):
+        if sr[k]:
+            ck.violation("C11:wsp-%s" % k, sr[k], sr)
     ck.assumptions += ["entry points exercised: RTSP play / publish (Digest), RTSP-over-WebSocket play / publish, HTTP-FLV, WebSocket-FLV, HLS playlist, HLS segment, WSP (control + data socket), management API",
                        "paths /a/x, /b/y (pull) and /a/p, /b/p (push); rights from {'', *, /a/*, /b/*, /a/x} x {'', /a/*, /b/p}; u1 varies, adm and u2 are static",
                        "granted = media bytes / 200 / successful RECORD with the stream registered; refused = 401 or 403 (any other outcome is reported as an error and counts as a mismatch)"]
